@@ -270,6 +270,8 @@ def amen_solve(A, b, nswp=22, x0=None, eps=1e-10, rmax=32768, max_full=500, kick
         raise InvalidArguments("Invalid preconditioner.")
     if local_solver not in (1, 2):
         raise InvalidArguments('Solver not implemented.')
+    if trunc_norm not in ('res', 'fro'):
+        raise InvalidArguments("Invalid trunc_norm.")
 
     if use_cpp and _flag_use_cpp:
         if x0 == None:
